@@ -89,11 +89,49 @@ func legitCred(r drv.Rand, c ClientInfo) Cred {
 				kind = "basic"
 			}
 		}
-		return Cred{Kind: kind, ID: c.ID, Sec: c.Secret}
+		cr := Cred{Kind: kind, ID: c.ID, Sec: c.Secret}
+		if kind == "basic" && r.Chance(1, 5) { // the same identity once more in the form
+			cr.FormID = c.ID
+		}
+		return cr
 	case "none":
+		if r.Chance(1, 6) { // public client naming itself in a Basic header without secret
+			return Cred{Kind: "basic", ID: c.ID}
+		}
 		return Cred{Kind: "post", ID: c.ID}
 	default:
-		return Cred{Kind: "assertion", Iss: c.ID, Valid: true}
+		cr := Cred{Kind: "assertion", Iss: c.ID, Valid: true}
+		if r.Chance(1, 4) {
+			cr.FormID = c.ID
+		}
+		return cr
+	}
+}
+
+// twoIdentities: the attacker X authenticates correctly (assertion or Basic header) and
+// names the victim c in the form fields. The authenticated client is X.
+func (g *gen) twoIdentities(c ClientInfo) (Cred, string) {
+	var x ClientInfo
+	for {
+		x = g.otherClient(c.ID)
+		if c.ID != "pkjwt" && g.r.Bool() {
+			x = g.client("pkjwt") // half of the time the attacker holds a valid assertion
+		}
+		if x.Auth != "post" || g.r.Bool() { // any registration can sit in the header
+			break
+		}
+	}
+	cr := Cred{FormID: c.ID}
+	if g.r.Bool() {
+		cr.FormSec = c.Secret // even the victim's real secret must not help: the header / assertion wins
+	}
+	switch x.Auth {
+	case "pkjwt":
+		cr.Kind, cr.Iss, cr.Valid = "assertion", x.ID, true
+		return cr, "two-identities-assertion"
+	default: // basic, post (secret in the header) or public (id in the header)
+		cr.Kind, cr.ID, cr.Sec = "basic", x.ID, x.Secret
+		return cr, "two-identities-basic"
 	}
 }
 
@@ -108,6 +146,9 @@ func (g *gen) otherClient(not string) ClientInfo {
 
 // badCred: a credential that does not prove client c.
 func (g *gen) badCred(c ClientInfo) (Cred, string) {
+	if g.r.Chance(1, 3) {
+		return g.twoIdentities(c)
+	}
 	switch g.r.IntN(10) {
 	case 0, 1, 2, 3: // another client, correctly authenticated
 		o := g.otherClient(c.ID)
@@ -187,6 +228,14 @@ func (g *gen) newFlow(routerMode int) *flow {
 		if len(f.scopes) == 0 {
 			f.scopes = []string{"profile"}
 		}
+	}
+	if g.r.Chance(1, 6) { // a repeated scope value: ValidateAuthReqScopes does not de-duplicate
+		k := g.r.IntN(len(f.scopes))
+		at := g.r.IntN(len(f.scopes) + 1)
+		dup := append([]string{}, f.scopes[:at]...)
+		dup = append(dup, f.scopes[k])
+		f.scopes = append(dup, f.scopes[at:]...)
+		g.tag("scopes=dup")
 	}
 	f.nonce = fmt.Sprintf("nonce-%x", g.r.Bytes(4))
 	if g.r.Chance(1, 10) {
@@ -322,7 +371,25 @@ func (g *gen) honestRefresh(f *flow) Op {
 	default:
 		o.Scopes = subsetOf(g.r, f.granted)
 	}
+	if len(o.Scopes) > 0 && g.r.Chance(1, 8) { // a granted scope asked for twice
+		o.Scopes = append(o.Scopes, drv.Pick(g.r, o.Scopes))
+		o.Mut = "scope-repeated"
+	}
 	return o
+}
+
+func distinct(s []string) []string {
+	var out []string
+	for _, x := range s {
+		seen := false
+		for _, y := range out {
+			seen = seen || x == y
+		}
+		if !seen {
+			out = append(out, x)
+		}
+	}
+	return out
 }
 
 func (g *gen) otherFlow(f *flow) *flow {
@@ -472,7 +539,11 @@ func (g *gen) step(f *flow) {
 			return
 		}
 		o := g.honestRefresh(f)
-		switch g.r.IntN(10) {
+		pick := g.r.IntN(10)
+		if len(distinct(f.granted)) < len(f.granted) && g.r.Bool() {
+			pick = 5
+		}
+		switch pick {
 		case 0, 1, 2:
 			o.Cred, o.Mut = g.badCred(f.cl)
 		case 3, 4:
@@ -483,7 +554,18 @@ func (g *gen) step(f *flow) {
 				o.Scopes[0], o.Scopes[len(o.Scopes)-1] = o.Scopes[len(o.Scopes)-1], o.Scopes[0]
 			}
 		case 5:
-			o.Scopes, o.Mut = subsetOf(g.r, notIn(f.granted)), "scope-disjoint"
+			if d := distinct(f.granted); len(d) < len(f.granted) {
+				// every granted value once, plus as many foreign scopes as the grant has repetitions:
+				// the request is exactly as long as the granted list but not within it
+				o.Scopes = append([]string{}, d...)
+				ext := notIn(f.granted)
+				for k := 0; k < len(f.granted)-len(d) && k < len(ext); k++ {
+					o.Scopes = append(o.Scopes, ext[k])
+				}
+				o.Mut = "scope-superset-same-length"
+			} else {
+				o.Scopes, o.Mut = subsetOf(g.r, notIn(f.granted)), "scope-disjoint"
+			}
 		case 6:
 			o.Mut = "foreign-rt"
 			if x := g.otherFlow(f); x != nil && last(x.rts) != 0 {
